@@ -1,7 +1,7 @@
 """C19 - channel helpers never lose, duplicate or invent a value (DESIGN.md section 7-C19)."""
 from ..core import *
 
-CLAUSES = ["I_NoPanic", "I_NeverBlocks", "I_Queued", "I_QueuedPending", "I_Outcome", "I_SendConserve", "I_RecvConserve", "I_Unlimited", "I_RecvRace", "I_SendRace"]
+CLAUSES = ["I_NoPanic", "I_NeverBlocks", "I_Queued", "I_QueuedPending", "I_Outcome", "I_SendConserve", "I_RecvConserve", "I_Unlimited", "I_RecvRace", "I_SendRace", "I_CloseRace"]
 
 
 def check(run):
@@ -21,6 +21,11 @@ def check(run):
                 for fill in (cap, cap - 3):
                     plan.append(dict(op=op, cap=cap, fill=fill, closed=False, limit=limit, pending=0))
                     plan.append(dict(op=op, cap=cap, fill=fill, closed=True, limit=limit, pending=0))
+        if op == "RecvQueued":             # "no limit" callers: limits at the top of the int range
+            for cap in (1, 4):
+                for fill in (0, cap):
+                    for h in (0, 1, 2):
+                        plan.append(dict(op=op, cap=cap, fill=fill, closed=False, limit=1 << 30, huge=h, pending=0))
         for cap in (0, 1, 2):
             for pending in (1, 2):
                 for limit in (0, 1, 2, 4):
@@ -55,6 +60,8 @@ def check(run):
     for rnd in range(6000 if q else 60000):
         cap = run.rng.choice([1, 2, 4])
         race.append(dict(op="RecvRace", cap=cap, fill=run.rng.choice([1, 1, cap]), closed=True, n=8, limit=0, pending=0))
+    for rnd in range(300 if q else 3000):       # the close lands from 400us before to 400us after the 3ms deadline
+        race.append(dict(op="RecvCloseRace", cap=run.rng.choice([0, 1]), fill=0, closed=False, limit=0, pending=0, offus=run.rng.randint(-400, 400)))
     timed = timed + race
     # run the timed scenarios in parallel driver processes (they sleep), the queued ones in one
     from concurrent.futures import ThreadPoolExecutor
